@@ -323,9 +323,11 @@ def _returned_roles(f):
     return out
 
 
-def _insertions(f, name):
+def _insertions(f, name, handled=()):
     out = []
     for c in walk_self(f.node):
+        if id(c) in handled:
+            continue
         if isinstance(c, ast.Call) and isinstance(c.func, ast.Attribute) and isinstance(c.func.value, ast.Name) and c.func.value.id == name:
             if c.func.attr == 'append':
                 out.append(('tail', c))
@@ -340,6 +342,40 @@ def _insertions(f, name):
     return out
 
 
+def _post_reversals(f, names):
+    """In-place reversals of a whole stack AFTER every insertion into it:
+    top-level, unconditional `name.reverse()` statements of the function that
+    follow the last top-level statement inserting into `name`.  Building a
+    list by append() and reversing it once at the end is the same list as
+    building it by insert(0, .): reverse(insert_head(L, x)) == append(reverse(L), x),
+    so each such reversal flips the polarity of every earlier insertion
+    exactly.  Returns ({name: parity}, {id(call) handled}); a reversal in any
+    other position (conditional, inside the loop, before an insertion) is an
+    idiom this rule cannot read."""
+    body = f.node.body
+    parity = {n: 0 for n in names}
+    handled = set()
+
+    def inserts_into(st, name):
+        return any(isinstance(c, ast.Call) and isinstance(c.func, ast.Attribute) and isinstance(c.func.value, ast.Name)
+                   and c.func.value.id == name and c.func.attr in ('append', 'insert', 'extend') for c in walk_self(st))
+
+    for name in names:
+        last_ins = max([i for i, st in enumerate(body) if inserts_into(st, name)] or [-1])
+        for i, st in enumerate(body):
+            is_rev = (isinstance(st, ast.Expr) and isinstance(st.value, ast.Call) and isinstance(st.value.func, ast.Attribute)
+                      and isinstance(st.value.func.value, ast.Name) and st.value.func.value.id == name
+                      and st.value.func.attr == 'reverse' and not st.value.args and not st.value.keywords)
+            if is_rev and i > last_ins >= 0:
+                parity[name] ^= 1
+                handled.add(id(st.value))
+    for c in walk_self(f.node):
+        if isinstance(c, ast.Call) and isinstance(c.func, ast.Attribute) and isinstance(c.func.value, ast.Name) \
+                and c.func.value.id in names and c.func.attr == 'reverse' and id(c) not in handled:
+            raise UnknownIdiom('%s: %s is reversed in a position this rule cannot read (%s)' % (f.qual, c.func.value.id, short(c)))
+    return parity, handled
+
+
 class _Unevaluable(Exception):
     pass
 
@@ -350,6 +386,9 @@ def _distribution_table(run, f, roles, role_of, mode):
     Returns {(has_req, has_res, has_resp, independent): set of events} or
     raises _Unevaluable.  An event is (stack role, 'head'|'tail', item kind)."""
     stack_role = {roles[0][0]: 'request', roles[1][0]: 'resource', roles[2][0]: 'response'}
+    # a stack reversed as a whole after the loop (in place, or reversed() in the return): every insertion flips
+    post_rev, _handled = _post_reversals(f, list(stack_role))
+    reversed_roles = {stack_role[n] for (n, rev) in roles if bool(rev) != bool(post_rev[n])}
     loops = [n for n in walk_self(f.node) if isinstance(n, ast.For)
              and any(isinstance(c, ast.Call) and isinstance(c.func, ast.Attribute) and isinstance(c.func.value, ast.Name)
                      and c.func.value.id in stack_role and c.func.attr in ('append', 'insert') for c in walk_self(n))]
@@ -448,6 +487,8 @@ def _distribution_table(run, f, roles, role_of, mode):
                     env = {'process_request': rq, 'process_resource': rs, 'process_response': rp, 'mode': md}
                     events = []
                     run_block(body, env, events)
+                    flip = {'head': 'tail', 'tail': 'head'}
+                    events = [(role, flip[pos] if role in reversed_roles else pos, item) for (role, pos, item) in events]
                     table[(rq, rs, rp, md)] = sorted(events)
     return table, loops[0]
 
@@ -630,13 +671,14 @@ def r3_stacks(run):
     if len(roles) != 3:
         raise UnknownIdiom('prepare_middleware returns %d stacks' % len(roles))
     want = [('request', 'tail'), ('resource', 'tail'), ('response', 'head')]
+    post_rev, rev_handled = _post_reversals(f, [n for n, _ in roles])
     for (name, rev), (role, pol) in zip(roles, want):
-        ins = _insertions(f, name)
+        ins = _insertions(f, name, rev_handled)
         if not ins:
             raise AnchorError('prepare_middleware: no insertion into %s' % name)
         for kind, c in ins:
             # dependent mode appends (req, resp) pairs to the request stack: tail
-            eff = {'tail': 'head', 'head': 'tail'}.get(kind, kind) if rev else kind
+            eff = {'tail': 'head', 'head': 'tail'}.get(kind, kind) if (bool(rev) != bool(post_rev[name])) else kind
             run.check(eff == pol, 'prepare_middleware: %s stack is %s-inserted (%s methods run %s)' % (
                 role, pol, role, 'bottom-up' if pol == 'head' else 'top-down'), f, c)
     # mode separation: the static response stack is filled only in independent
@@ -743,13 +785,13 @@ def r3_stacks(run):
         mode_edges = None
     resp_name = roles[2][0]
     req_name = roles[0][0]
-    for kind, c in (_insertions(f, resp_name) if mode_edges else []):
+    for kind, c in (_insertions(f, resp_name, rev_handled) if mode_edges else []):
         nids = [n.id for n in cfg.live_nodes() if any(x is c for x in n.calls())]
         ok = bool(nids) and all(any(flow.dominated_by_edge(cfg, nid, e) for e in mode_edges[True]) for nid in nids)
         run.check(ok, 'prepare_middleware: the static response stack is filled only in independent mode '
                       '(in dependent mode the per-request stack must be the one that runs)', f, c,
                   runtime_witness='independent_middleware=False and a process_request that raises: later components\' process_response still run')
-    for kind, c in (_insertions(f, req_name) if mode_edges else []):
+    for kind, c in (_insertions(f, req_name, rev_handled) if mode_edges else []):
         is_pair = bool(c.args) and isinstance(c.args[-1], ast.Tuple)
         nids = [n.id for n in cfg.live_nodes() if any(x is c for x in n.calls())]
         want = not is_pair
@@ -1027,6 +1069,81 @@ def r6_wiring(run):
                                      'position gets no request/resource/response calls')
         else:
             raise UnknownIdiom('add_middleware: the middleware argument is rebound to %s' % short(v))
+    # (a'') the argument may be a one-shot iterator (generator, map, iter(list)): while the parameter still holds the
+    # caller's object it is traversed at most once on every path -- the traversal that materialises it, or the single
+    # one that registers it; a second traversal sees it exhausted and registers nothing.
+    # forward may-analysis of "the name still holds the caller's object": killed by every rebinding of the name
+    def _binds(node):
+        a = node.ast
+        tg = []
+        if isinstance(a, ast.Assign):
+            tg = a.targets
+        elif isinstance(a, (ast.AnnAssign, ast.AugAssign)) and getattr(a, 'value', None) is not None:
+            tg = [a.target]
+        return any(isinstance(t, ast.Name) and t.id == mparam for t in tg)
+
+    def _traversals(node):
+        """expressions of this node that iterate the name (not truth tests, isinstance, wrapping it in a display)"""
+        out = []
+        for x in node.walk():
+            it = None
+            if isinstance(x, (ast.For, ast.AsyncFor)) and x is node.ast:
+                it = [x.iter]
+            elif isinstance(x, ast.comprehension):
+                it = [x.iter]
+            elif isinstance(x, ast.Call):
+                fn = x.func.id if isinstance(x.func, ast.Name) else (x.func.attr if isinstance(x.func, ast.Attribute) else None)
+                if fn in ('list', 'tuple', 'set', 'frozenset', 'sorted', 'sum', 'len', 'any', 'all', 'max', 'min', 'chain',
+                          'extend', 'enumerate', 'zip', 'map', 'filter', 'reversed', 'iter', 'next', 'join', 'dict', 'fromkeys'):
+                    it = list(x.args)
+            elif isinstance(x, ast.BinOp) and isinstance(x.op, ast.Add):
+                it = [x.left, x.right]
+            elif isinstance(x, ast.AugAssign) and isinstance(x.op, ast.Add):
+                it = [x.value]
+            elif isinstance(x, ast.Starred):
+                it = [x.value]
+            for e in it or []:
+                if isinstance(e, ast.Name) and e.id == mparam:
+                    out.append(x if not isinstance(x, ast.comprehension) else e)
+        return out
+
+    RAW = frozenset(['raw'])
+
+    def _transfer(node, facts, label):
+        if _binds(node) and label != 'exc':
+            return frozenset()
+        return facts
+
+    raw_in = flow.forward(cfg, _transfer, init=RAW, must=False)
+    trav_nodes = {}
+    for n in cfg.live_nodes():
+        if 'raw' in raw_in.get(n.id, ()):
+            t = _traversals(n)
+            if t:
+                trav_nodes[n.id] = t
+    n_checked = 0
+    for nid, travs in sorted(trav_nodes.items()):
+        node = cfg.node(nid)
+        # a second traversal: in the same node, or in a node reachable from this one while the name is still raw
+        later = []
+        if len(travs) > 1:
+            later = [node]
+        if not _binds(node):
+            frontier = flow.reachable(cfg, [y for (y, l) in cfg.succ[nid]], avoid_nodes=[m.id for m in cfg.live_nodes() if _binds(m)])
+            later += [cfg.node(m) for m in sorted(frontier) if m in trav_nodes and m != nid]
+            # a rebinding node that itself traverses the raw value (list(middleware)) is still a traversal
+            for m in cfg.live_nodes():
+                if _binds(m) and m.id in trav_nodes and m.id != nid and any(p_ in frontier or p_ == nid for (p_, _l) in cfg.pred[m.id]):
+                    later.append(m)
+        n_checked += 1
+        run.check(not later, 'add_middleware traverses the caller\'s iterable at most once before it is a list '
+                             '(a one-shot iterator is empty the second time)', f,
+                  (later[0].ast if later and later[0].ast is not None else node.ast),
+                  witness=['first traversal: %s' % node.text()] + (['second traversal: %s' % later[0].text()] if later else []),
+                  runtime_witness='App(cors_enable=True).add_middleware(iter([a, b])): the duplicate-CORS scan exhausts the iterator, '
+                                  'nothing is registered, no method of a or b is ever called')
+    if not n_checked:
+        raise AnchorError('add_middleware: the middleware argument is never traversed')
     for kind, n in writers:
         val = n.value if isinstance(n, (ast.AugAssign, ast.Assign)) else (n.args[0] if n.args else None)
         if isinstance(n, ast.Assign) and isinstance(val, ast.BinOp):
